@@ -270,3 +270,31 @@ func runFresh(mode string, input []byte, timeout time.Duration) (workerOutcome, 
 	defer w.kill()
 	return w.call(input, timeout), nil
 }
+
+// measuredDecode runs hsms.Parse in-process and returns the TotalAlloc delta
+// (minimum of up to three runs, to discount unrelated concurrent allocation)
+// and the text of a panic that escaped the decoder, if any.
+func measuredDecode(in []byte) (alloc uint64, panicText string) {
+	best := ^uint64(0)
+	for attempt := 0; attempt < 3; attempt++ {
+		var ms0, ms1 runtime.MemStats
+		buf := append([]byte(nil), in...)
+		runtime.ReadMemStats(&ms0)
+		func() {
+			defer func() {
+				if r := recover(); r != nil {
+					panicText = fmt.Sprint(r)
+				}
+			}()
+			hsms.Parse(buf)
+		}()
+		runtime.ReadMemStats(&ms1)
+		if d := ms1.TotalAlloc - ms0.TotalAlloc; d < best {
+			best = d
+		}
+		if panicText != "" || best <= uint64(c07AllocBase+c07AllocPerByte*len(in)) {
+			break
+		}
+	}
+	return best, panicText
+}
